@@ -34,7 +34,7 @@ def plan(tier, seed):
 
 def thresholds(tier):
   t = {"design_backend_pairs": 100, "texts_compared": 300, "module_tables_checked": 100, "standalone_bodies_compared": 200,
-       "parameterisations": 300, "hashed_module_names": 20, "full_names_checked": 150}
+       "parameterisations": 300, "hashed_module_names": 20, "full_names_checked": 150, "instance_statements_checked": 120}
   if tier == "thorough":
     t = {k: v * 8 for k, v in t.items()}
   return t
@@ -244,9 +244,9 @@ def run_shard(sh):
     r = sh.rng("pd", c)
     it = gen_param_design(r, odd=False)
     items.append(it)
-    for g in it["groups"]:
-      for cfg in g:
-        items.append({"type": "leaf", "T": it["T"], "cfg": cfg, "backends": ["sv"]})
+    for a_, g in enumerate(it["groups"]):
+      for j_, cfg in enumerate(g):
+        items.append({"type": "leaf", "T": it["T"], "cfg": cfg, "backends": ["sv"], "pos": [a_, j_]})
   outs = run_workers(sh, items, sh.params["procs"], "clean")
   if len(outs) < 2:
     sh.inconclusive("fewer-than-2-worker-results"); return
@@ -283,7 +283,7 @@ def run_shard(sh):
         continue
       bodies, d = r
       if item["type"] in ("specgen", "param") and not item.get("top"):
-        cur = {"bodies": bodies, "item": item, "be": be, "i": i}
+        cur = {"bodies": bodies, "item": item, "be": be, "i": i, "text": v["text"]}
         if be == "sv": cur_design = cur
         shared = sum(1 for m in d.modules.values() for it in m["items"] if it[0] == "inst")
         if shared >= 2 or item["type"] == "param":
@@ -319,6 +319,20 @@ def run_shard(sh):
         # stand-alone translation of one class / parameterisation: its top module body must equal the body under that
         # name in the hierarchy's text
         top_mod = v["top_module"]
+        if item["type"] == "leaf" and "pos" in item and cur_design["item"]["type"] == "param":
+          # the INSTANCE statement of this leaf inside the hierarchy names the module of this very parameterisation
+          a_, j_ = item["pos"]
+          mtop = [b_ for n_, b_ in cur_design["bodies"].items() if n_.startswith("ParamTop")]
+          m1 = re.search(r"(\S+)\s+mids__%d\s*\(" % a_, mtop[0][0]) if mtop else None
+          mid_body = cur_design["bodies"].get(m1.group(1)) if m1 else None
+          m2 = re.search(r"(\S+)\s+leafs__%d\s*\(" % j_, mid_body[0]) if mid_body else None
+          if m2 is None:
+            sh.count("instance_statements_not_found")
+          else:
+            sh.count("instance_statements_checked")
+            if m2.group(1) != top_mod:
+              sh.violation("instance-statement-names-the-module-of-another-parameterisation", {"instance": f"mids[{a_}].leafs[{j_}]", "instantiated_module": m2.group(1),
+                           "module_of_this_parameterisation": top_mod, "item": item}, case=("item", i))
         sh.count("standalone_bodies_compared")
         hb = cur_design["bodies"].get(top_mod)
         if hb is None:
